@@ -1418,7 +1418,25 @@ def c06_j(ctx):
                  if isinstance(k, ast.Constant))
         okd = d.get('shape') == pattern_term('self.shape') and \
             d.get('fortran_order') == pattern_term('self.fortran_order') and \
-            d.get('descr') is not None and contains(d['descr'], 'self.dtype')
+            d.get('descr') is not None and \
+            match_any(d['descr'], ('npformat.dtype_to_descr(self.dtype)',
+                                   'np.lib.format.dtype_to_descr(self.dtype)')) is not None
+    ctx.fact('the .npy descr of a dtype is numpy.lib.format.dtype_to_descr(dtype); dtype.str loses '
+             'the field list of a structured dtype')
+    # the header is (re)prepared only by the operations that change the shape, after the change:
+    # a handle with nothing pending must leave the file alone when it is flushed or closed
+    callers = [f for f in na.methods.values()
+               if any(ph in ctx.cg.resolve(f, c) for c in ctx.calls(f))]
+    for f in callers:
+        exf2 = ctx.ex(f)
+        shape_st = [s_ for (s_, t_, k_) in ctx.stores(f, 'self.shape') if k_ == 'assign']
+        cs = [c for c in ctx.calls(f) if ph in ctx.cg.resolve(f, c)]
+        okc = bool(shape_st) and all(ctx.must_precede(f, shape_st, ctx_stmt(c)) for c in cs)
+        ctx.check(okc, f, 'header prepared only after a change of the shape',
+                  'self.shape = ...; self._prepare_header_data()',
+                  '{} prepares header bytes without having changed the shape: a handle with '
+                  'nothing pending rewrites the header with its own remembered length (a second, '
+                  'stale handle rolls the file back)'.format(f.name), fn=f, node=cs[0])
     ctx.check(okd, ph, 'header describes the current shape and dtype',
               "{'shape': self.shape, 'fortran_order': .., 'descr': dtype_to_descr(self.dtype)}",
               'the prepared header does not describe the current shape / order / dtype', fn=ph,
